@@ -1,6 +1,7 @@
 /- Line-protocol driver for the dict-document codec model (C02 and the dict-document parts of C04 C05 C16 C10). -/
 import Driver.Util
 import SpyneModel.HierEncode
+import SpyneModel.HierSpec
 import SpyneModel.Generated.Facts08
 import SpyneModel.Generated.Facts02
 open Lean SpyneModel SpyneModel.Hier Driver
@@ -227,6 +228,7 @@ def step (j : Json) : Json :=
   | "encode" => Json.mkObj [("ok", docJson (encodeIds F cfg R G (jTy (jField j "ty")) (jVal (jField j "val")) (jIds (jField j "val"))))]
   | "response" => Json.mkObj [("ok", docJson (encodeResponseIds F cfg R G (getStr j "method").toList (jTy (jField j "ty"))
                                                 (jVal (jField j "val")) (jIds (jField j "val"))))]
+  | "readresponse" => resJson valJson (decodeResponse F G cfg R (getStr j "method").toList (jTy (jField j "ty")) (jDoc (jField j "doc")))
   | "acyclic" => Json.mkObj [("ok", .bool (acyclic [] (jIds (jField j "val"))))]
   | "conforms" => Json.mkObj [("ok", .bool (conforms (jTy (jField j "ty")) (jVal (jField j "val"))))]
   | "utf8enc" => Json.mkObj [("ok", nats (utf8Enc (jText (jField j "s"))))]
